@@ -11,11 +11,14 @@ component that is empty, `.`, `..` or contains `/`.
 * `commit_paths_confined`: every workspace path of the traced commit is `pre` followed by entry
   names of the tree, every other path is a cache/temp class; hence `commit_paths_safe`.
 * `checkoutNodeT` (added to `Sys.lean`), `checkoutNodeT_refines`.
-* `checkout_paths_confined_partial`: IF every child name of every manifest in the store is a single
-  safe component THEN all workspace paths of the traced checkout are safe and below `pre`.
-* `manifest_entry_escapes` (negative witness, a real defect): a manifest with a child named
-  `../../x` makes checkout write to `pre/../../x`.  Manifests are not validated on read
-  (`readDirManifest` / `checkoutWorker` join `childArt.Path` as is).
+* `readManifest_safe`: `readManifest` validates entry names (`entryNameOK`), so every child name it
+  returns is a single safe component.
+* `checkout_paths_confined`: all workspace paths of the traced checkout are safe and below `pre`
+  (unconditionally; `checkout_paths_confined_partial` is the form with the validation as a
+  hypothesis, kept as the lemma it is derived from).
+* `manifest_entry_rejected` (positive witness; this used to be the escape `manifest_entry_escapes`):
+  a manifest with a child named `../../x` is rejected with `badManifest`, by `readManifest` and by
+  the traced checkout, before anything is written.
 -/
 namespace Dud.Sys
 
@@ -31,6 +34,10 @@ def SafeComp (c : Name) : Prop :=
 def SafeRel (rel : List Name) : Prop := ∀ c ∈ rel, SafeComp c
 
 instance (c : Name) : Decidable (SafeComp c) := by unfold SafeComp; infer_instance
+
+/-- `entryNameOK` (the check of `readManifest`) is exactly `SafeComp` -/
+theorem safeComp_iff_entryNameOK (c : Name) : SafeComp c ↔ entryNameOK c = true := by
+  simp [SafeComp, entryNameOK, and_assoc]
 
 theorem SafeRel.append {a b : List Name} (ha : SafeRel a) (hb : SafeRel b) : SafeRel (a ++ b) := by
   intro c hc
@@ -353,6 +360,28 @@ theorem checkout_paths_safe_partial {t : TCfg κ} {s : Store κ}
   · exact hs
   · trivial
 
+/-- **Manifests are validated on read**: every entry name `readManifest` returns is a single safe
+component (this was the hypothesis of `checkout_paths_confined_partial`). -/
+theorem readManifest_safe {ctx : Ctx κ} {s : Store κ} {d : Digest} {cs : List Child}
+    (h : readManifest ctx s d = .ok cs) : ∀ c ∈ cs, SafeComp c.name :=
+  fun c hc => (safeComp_iff_entryNameOK c.name).2 (readManifest_childrenOK h c hc)
+
+/-- **Paths of the traced checkout.**  Every workspace path of the traced checkout is a safe
+relative path below `pre`; the only other paths are objects. -/
+theorem checkout_paths_confined {t : TCfg κ} {s : Store κ}
+    (fuel : Nat) (pre : List Name) (cur : Option (Node κ)) (c : Child) (r : Node κ)
+    (calls : List (Call κ)) (hpre : SafeRel pre)
+    (h : checkoutNodeT t s fuel pre cur c = .ok (r, calls)) :
+    ∀ call ∈ calls, ∀ p ∈ callPaths call, CoOK pre p :=
+  checkout_paths_confined_partial (fun _ _ hm => readManifest_safe hm) fuel pre cur c r calls hpre h
+
+/-- in particular every path of the traced checkout is confined -/
+theorem checkout_paths_safe {t : TCfg κ} {s : Store κ}
+    {fuel : Nat} {pre : List Name} {cur : Option (Node κ)} {c : Child} {r : Node κ}
+    {calls : List (Call κ)} (hpre : SafeRel pre)
+    (h : checkoutNodeT t s fuel pre cur c = .ok (r, calls)) :
+    ∀ call ∈ calls, ∀ p ∈ callPaths call, Confined p :=
+  checkout_paths_safe_partial (fun _ _ hm => readManifest_safe hm) hpre h
 
 /-- the one-entry store used by the witness: a manifest with a single file entry named `nm`, and
 the payload it points to, each under its own digest -/
@@ -371,10 +400,11 @@ theorem escStore_consistent (ctx : Ctx κ) (path nm : Name) (payload : κ) :
     · next hd => cases h; exact hd
     · cases h
 
-/-- **General form of the escape**: whatever the entry name `nm` of the manifest, checking out the
-directory at `pre` into an empty place writes to `pre ++ [nm]` — the name is joined as is. -/
+/-- Whatever the *valid* entry name `nm` of the manifest, checking out the directory at `pre` into
+an empty place writes to `pre ++ [nm]` — the name is joined as is (which is harmless, the name being
+a single safe component; invalid names: `checkout_rejects_entry_name`). -/
 theorem checkout_writes_entry_name (t : TCfg κ) (g : Good t.ctx) (path nm : Name) (payload : κ)
-    (pre : List Name) (hrel : ∀ c, t.ctx.reload .new c = c)
+    (pre : List Name) (hrel : ∀ c, t.ctx.reload .new c = c) (hnm : entryNameOK nm = true)
     (hne : (Obj.man .new path [⟨nm, t.ctx.H payload, false⟩] : Obj κ).digest t.ctx ≠ t.ctx.H payload) :
     ∃ r calls, checkoutNodeT t (escStore t.ctx path nm payload) 2 pre none
         ⟨path, (Obj.man .new path [⟨nm, t.ctx.H payload, false⟩] : Obj κ).digest t.ctx, true⟩ = .ok (r, calls) ∧
@@ -389,7 +419,7 @@ theorem checkout_writes_entry_name (t : TCfg κ) (g : Good t.ctx) (path nm : Nam
     simp [escStore, Store.get, alookup, hdm, hne]
   generalize escStore t.ctx path nm payload = s at hg1 hg2
   have hrm : readManifest t.ctx s dm = .ok [⟨nm, t.ctx.H payload, false⟩] := by
-    simp [readManifest, hg1, hrel]
+    simp [readManifest, hg1, hrel, hnm]
   -- the file one level down
   have hfile : ∃ r, checkoutFileT t (.ws (pre ++ [nm])) none (t.ctx.H payload) s =
       .ok (r, checkoutFileCalls t.isEmp t.strat (.ws (pre ++ [nm])) false payload (t.ctx.H payload)) := by
@@ -412,7 +442,40 @@ theorem checkout_writes_entry_name (t : TCfg κ) (g : Good t.ctx) (path nm : Nam
       exact ⟨.createExcl (.ws (pre ++ [nm])), by simp [checkoutFileCalls],
         by simp [callWrites, callPaths]⟩
 
-/-! ## negative witness: manifests are not validated on read -/
+/-- **An invalid entry name is rejected**: if the entry name `nm` of the manifest is empty, `.`,
+`..` or contains `/`, reading the manifest and checking out the directory (at any `pre`, over
+anything) fail with `badManifest`; no call is issued. -/
+theorem checkout_rejects_entry_name (t : TCfg κ) (g : Good t.ctx) (path nm : Name) (payload : κ)
+    (pre : List Name) (cur : Option (Node κ)) (fuel : Nat)
+    (hrel : ∀ c, t.ctx.reload .new c = c) (hnm : entryNameOK nm = false)
+    (hcur : ∀ n, cur = some n → n.isDir = true) :
+    readManifest t.ctx (escStore t.ctx path nm payload)
+        ((Obj.man .new path [⟨nm, t.ctx.H payload, false⟩] : Obj κ).digest t.ctx) = .error .badManifest ∧
+    checkoutNodeT t (escStore t.ctx path nm payload) (fuel + 1) pre cur
+        ⟨path, (Obj.man .new path [⟨nm, t.ctx.H payload, false⟩] : Obj κ).digest t.ctx, true⟩ =
+      .error .badManifest := by
+  generalize hdm : (Obj.man .new path [⟨nm, t.ctx.H payload, false⟩] : Obj κ).digest t.ctx = dm
+  have hs1 : hasSum dm = true := by rw [← hdm]; exact hasSum_H g _
+  have hg1 : (escStore t.ctx path nm payload).get dm
+      = some (.man .new path [⟨nm, t.ctx.H payload, false⟩]) := by
+    simp [escStore, Store.get, alookup, hdm]
+  generalize escStore t.ctx path nm payload = s at hg1
+  have hrm : readManifest t.ctx s dm = .error .badManifest := by
+    refine readManifest_man_bad hg1 (fun hok => ?_)
+    have := hok _ (List.mem_map.2 ⟨_, List.mem_singleton.2 rfl, rfl⟩)
+    rw [hrel, hnm] at this
+    cases this
+  refine ⟨hrm, ?_⟩
+  cases cur with
+  | none => simp [checkoutNodeT, hs1, Store.has, hg1, hrm]
+  | some n =>
+    cases n with
+    | dir es => simp [checkoutNodeT, hs1, Store.has, hg1, hrm]
+    | file _ => simpa [Node.isDir] using hcur _ rfl
+    | link _ => simpa [Node.isDir] using hcur _ rfl
+    | other => simpa [Node.isDir] using hcur _ rfl
+
+/-! ## positive witness: manifests are validated on read -/
 
 namespace Escape
 open Dud.Example
@@ -448,28 +511,41 @@ theorem digest_ne :
   have := good.inj _ _ h
   simp [Obj.bytes, ctx, payload] at this
 
-/-- **A manifest entry named `../../x` escapes.**  Checking out directory `t` into an empty place
-from a consistent store whose manifest has a child `../../x` succeeds and issues a call that writes
-the workspace path `t/../../x`, i.e. outside the project — with either strategy. -/
-theorem manifest_entry_escapes (strat : Strat) :
-    ∃ r calls, checkoutNodeT (tcfg strat) store 2 [[116]] none art = .ok (r, calls) ∧
-      (∃ call ∈ calls, P.ws ([[116]] ++ [evilName]) ∈ callWrites call) ∧
-      ¬ SafeRel ([[116]] ++ [evilName]) := by
-  obtain ⟨r, calls, h, hc⟩ := checkout_writes_entry_name (tcfg strat) good [116] evilName payload [[116]]
-    (fun _ => rfl) digest_ne
-  exact ⟨r, calls, h, hc, evil_not_safe⟩
+theorem evil_not_ok : entryNameOK evilName = false := by decide
 
-/-- so the hypothesis of `checkout_paths_confined_partial` is really needed: it fails here -/
-theorem store_manifests_not_validated (strat : Strat) :
-    ¬ ∀ d cs, readManifest (tcfg strat).ctx store d = .ok cs → ∀ c ∈ cs, SafeComp c.name := by
-  intro h
-  obtain ⟨r, calls, hco, call, hcall, hw⟩ := checkout_writes_entry_name (tcfg strat) good [116] evilName
-    payload [[116]] (fun _ => rfl) digest_ne
-  have hp := checkout_paths_confined_partial h 2 [[116]] none _ r calls
-    (by intro c hc; simp at hc; subst hc; decide) hco call hcall _ (callWrites_sub _ _ hw)
-  rcases hp with ⟨rel, heq, -, hs⟩ | ⟨d, heq⟩
-  · cases heq; exact evil_not_safe hs
-  · cases heq
+/-- **A manifest entry named `../../x` is rejected** (this used to be the escape
+`manifest_entry_escapes`).  From the consistent store whose manifest has a child `../../x`, reading
+the manifest fails with `badManifest`, and so does checking out directory `t` into an empty place —
+with either strategy, without a single call (in particular nothing is written to `t/../../x`). -/
+theorem manifest_entry_rejected (strat : Strat) :
+    readManifest (tcfg strat).ctx store art.sum = .error .badManifest ∧
+      checkoutNodeT (tcfg strat) store 2 [[116]] none art = .error .badManifest :=
+  checkout_rejects_entry_name (tcfg strat) good [116] evilName payload [[116]] none 1
+    (fun _ => rfl) evil_not_ok (fun _ h => by cases h)
+
+/-- the hypothesis of `checkout_paths_confined_partial` now holds here as for every store (it used
+to fail: `store_manifests_not_validated`) -/
+theorem store_manifests_validated (strat : Strat) :
+    ∀ d cs, readManifest (tcfg strat).ctx store d = .ok cs → ∀ c ∈ cs, SafeComp c.name :=
+  fun _ _ h => readManifest_safe h
+
+/-- a valid entry name is still joined as is: checkout of the same store shape with the entry named
+`x` writes `t/x` (non-vacuity of `checkout_writes_entry_name`) -/
+theorem valid_entry_written (strat : Strat) :
+    ∃ r calls, checkoutNodeT (tcfg strat) (escStore ctx [116] [0x78] payload) 2 [[116]] none
+        ⟨[116], (Obj.man .new [116] [⟨[0x78], ctx.H payload, false⟩] : Obj K).digest ctx, true⟩ =
+          .ok (r, calls) ∧
+      (∃ call ∈ calls, P.ws ([[116]] ++ [[0x78]]) ∈ callWrites call) ∧ SafeRel ([[116]] ++ [[0x78]]) := by
+  have hne : (Obj.man .new [116] [⟨[0x78], ctx.H payload, false⟩] : Obj K).digest ctx ≠ ctx.H payload := by
+    intro h
+    have := good.inj _ _ h
+    simp [Obj.bytes, ctx, payload] at this
+  obtain ⟨r, calls, h, hc⟩ := checkout_writes_entry_name (tcfg strat) good [116] [0x78] payload [[116]]
+    (fun _ => rfl) (by decide) hne
+  refine ⟨r, calls, h, hc, ?_⟩
+  intro c hc'
+  simp at hc'
+  rcases hc' with rfl | rfl <;> decide
 
 def showB (n : Name) : String := String.ofList (n.map (fun b => Char.ofNat b.toNat))
 
@@ -551,11 +627,19 @@ end ExampleC18
 #print axioms checkoutChildrenT_paths
 #print axioms checkout_paths_confined_partial
 #print axioms checkout_paths_safe_partial
+#print axioms safeComp_iff_entryNameOK
+#print axioms readManifest_safe
+#print axioms checkout_paths_confined
+#print axioms checkout_paths_safe
 #print axioms escStore_consistent
 #print axioms checkout_writes_entry_name
+#print axioms checkout_rejects_entry_name
 #print axioms Escape.store_consistent
-#print axioms Escape.manifest_entry_escapes
-#print axioms Escape.store_manifests_not_validated
+#print axioms Escape.evil_not_safe
+#print axioms Escape.evil_not_ok
+#print axioms Escape.manifest_entry_rejected
+#print axioms Escape.store_manifests_validated
+#print axioms Escape.valid_entry_written
 #print axioms ExampleC18.pre_safe
 #print axioms ExampleC18.names_safe
 
